@@ -379,7 +379,7 @@ func checkC06(c *Ctx) {
 			nW++
 			bad := ""
 			for k := range may[ci] {
-				if o := lockOwnerType(f, k); o == "Server" || o == "Mux" {
+				if o := lockOwnerType(f, k); o == "Server" || o == "Mux" || o == "package" {
 					bad = o + "." + strings.TrimSuffix(k[strings.LastIndex(k, ".")+1:], "(r)")
 				}
 			}
@@ -399,6 +399,11 @@ func checkC06(c *Ctx) {
 		R.Check(ci == m.serveCall, "C06-conn-async", fname(ci.Parent())+": serveRequests", c.pos(ci), "called only inside the per-connection goroutine started by go in Run", "serveRequests is called outside the per-connection goroutine: the accept loop would serve connections one at a time")
 	}
 	R.Check(m.connGo != nil && loopHeadOf(m.connGo) == loopHeadOf(m.accept), "C06-conn-async", "(*Server).Run: go per connection in accept loop", c.pos(m.connGo), "every accepted connection gets its own goroutine", "the per-connection go is not in the accept loop")
+	// ---- C06-nolock-io: "a handler that blocks delays ... nothing on other connections": a handler blocked in a write to
+	// a client that does not read holds no lock the read loops or writers of other connections need (rule C07-nolock-io)
+	if c.importRules(checkC07, func(o report.Obligation) bool { return o.Rule == "C07-nolock-io" }, "C06-nolock-io", " - the read loop of this and of every other connection that needs the lock stops dispatching") > 0 {
+		R.Floor("C06-nolock-io", 2)
+	}
 	R.NotDecided = append(R.NotDecided, "scheduler fairness / actual progress of concurrent handlers")
 }
 
@@ -761,8 +766,47 @@ func checkC13(c *Ctx) {
 	}
 	// ---- C13-rawhandshake
 	// (tls.Server may be called in StartTLS itself or in a helper StartTLS calls: `tlsConn, err := r.conn.newTLSServerConn(cfg)`)
+	// the whole upgrade may live in a method of the conn that StartTLS merely calls on r.conn and whose result it
+	// reports (`return r.conn.upgradeToTLS(cfg)`): the rule is then about that method, with its receiver as r.conn
+	body := startTLS
+	isReqConn := func(v ssa.Value) bool {
+		b, ok := fieldLoad(v, G, "Request", "conn")
+		return ok && an.Strip(b) == ssa.Value(startTLS.Params[0])
+	}
+	if len(callTo(startTLS, "crypto/tls", "Server")) == 0 {
+		for _, ci := range an.Calls(body) {
+			call, isC := ci.(*ssa.Call)
+			h := an.StaticCallee(ci.Common())
+			if !isC || h == nil || !an.InModule(h) || len(h.Blocks) == 0 || h.Signature.Recv() == nil || len(call.Common().Args) == 0 || !isReqConn(call.Common().Args[0]) {
+				continue
+			}
+			if len(callTo(h, "crypto/tls", "Server")) == 0 || len(callTo(h, G, "(*conn).initConn")) == 0 || errResultIndex(h) < 0 {
+				continue
+			}
+			// StartTLS reports success only where the method did
+			faithful := true
+			for _, ret := range an.Returns(startTLS) {
+				res := an.ReturnResults(ret)
+				if an.Search(an.After(call), isInstr(ret), nil) == nil || isErrOfCall(res[0], call) {
+					continue
+				}
+				if an.IsNilConst(an.Strip(res[0])) && !hasFact(ret.Block(), true, func(v ssa.Value) bool {
+					x, trueMeansNil, ok := an.NilCheck(v)
+					return ok && trueMeansNil && isErrOfCall(x, call)
+				}) && !hasFact(ret.Block(), false, func(v ssa.Value) bool {
+					x, trueMeansNil, ok := an.NilCheck(v)
+					return ok && !trueMeansNil && isErrOfCall(x, call)
+				}) {
+					faithful = false
+				}
+			}
+			R.Check(faithful, "C13-rawhandshake", "(*Request).StartTLS: reports the result of "+fname(h), c.pos(call), "success only where the method that performs the upgrade succeeded", "StartTLS can report success although "+fname(h)+" failed")
+			hp := h.Params[0]
+			body, isReqConn = h, func(v ssa.Value) bool { return an.Strip(v) == ssa.Value(hp) }
+		}
+	}
 	var tlsServer *ssa.Call
-	for _, ci := range callTo(startTLS, "crypto/tls", "Server") {
+	for _, ci := range callTo(body, "crypto/tls", "Server") {
 		tlsServer, _ = ci.(*ssa.Call)
 	}
 	var tlsHelper *ssa.Function // the helper that builds the TLS connection, if any
@@ -772,7 +816,7 @@ func checkC13(c *Ctx) {
 	if tlsServer != nil {
 		tlsSeen = tlsServer
 	} else {
-		for _, ci := range an.Calls(startTLS) {
+		for _, ci := range an.Calls(body) {
 			call, isCall := ci.(*ssa.Call)
 			h := an.StaticCallee(ci.Common())
 			if !isCall || h == nil || !an.InModule(h) || len(h.Blocks) == 0 {
@@ -831,15 +875,13 @@ func checkC13(c *Ctx) {
 		base, ok := fieldLoad(a0, G, "conn", "netConn")
 		if ok {
 			if tlsHelper == nil || tlsHelperArgSocket {
-				rb, ok2 := fieldLoad(base, G, "Request", "conn")
-				ok = ok2 && an.Strip(rb) == ssa.Value(startTLS.Params[0])
+				ok = isReqConn(base)
 			} else {
 				// in the helper: its own receiver, which StartTLS binds to r.conn
 				ok = false
 				for i, hp := range tlsHelper.Params {
 					if an.Strip(base) == ssa.Value(hp) && i < len(tlsHelperCall.Common().Args) {
-						rb, ok2 := fieldLoad(tlsHelperCall.Common().Args[i], G, "Request", "conn")
-						ok = ok2 && an.Strip(rb) == ssa.Value(startTLS.Params[0])
+						ok = isReqConn(tlsHelperCall.Common().Args[i])
 					}
 				}
 			}
@@ -847,7 +889,7 @@ func checkC13(c *Ctx) {
 		R.Check(ok, "C13-rawhandshake", "(*Request).StartTLS: tls.Server(conn.netConn)", c.pos(tlsServer), "TLS is layered on the raw socket r.conn.netConn (not on the buffered reader)", "tls.Server is applied to "+an.Path(a0)+" instead of r.conn.netConn")
 		// Handshake on it, initConn only on success with it
 		var hs *ssa.Call
-		for _, ci := range an.Calls(startTLS) {
+		for _, ci := range an.Calls(body) {
 			if call, ok := ci.(*ssa.Call); ok {
 				if f := call.Common().StaticCallee(); f != nil && an.FuncPkgPath(f) == "crypto/tls" && (f.Name() == "Handshake" || f.Name() == "HandshakeContext") &&
 					an.Strip(call.Common().Args[0]) == an.Strip(tlsSeen) {
@@ -901,7 +943,7 @@ func checkC13(c *Ctx) {
 				}
 			}
 		}
-		inits := callTo(startTLS, G, "(*conn).initConn")
+		inits := callTo(body, G, "(*conn).initConn")
 		var earlyInit ssa.CallInstruction
 		if tlsHelper != nil {
 			for _, ic := range callTo(tlsHelper, G, "(*conn).initConn") {
@@ -925,12 +967,11 @@ func checkC13(c *Ctx) {
 				return ok && trueMeansNil && an.Strip(x) == an.Strip(succ)
 			})
 			okArg := an.Strip(ic.Common().Args[1]) == an.Strip(tlsSeen)
-			recvBase, okRecv := fieldLoad(ic.Common().Args[0], G, "Request", "conn")
-			okRecv = okRecv && an.Strip(recvBase) == ssa.Value(startTLS.Params[0])
+			okRecv := isReqConn(ic.Common().Args[0])
 			R.Check(okErr && okArg && okRecv && isCall(ic), "C13-rawhandshake", "(*Request).StartTLS: handshake before swap", c.pos(ic),
 				"initConn(tlsConn) on r.conn is reached only when Handshake returned nil, with the handshaken connection", sprintf("swap is not conditional on a successful handshake of that very connection (errGuard=%v sameConn=%v sameReceiver=%v)", okErr, okArg, okRecv))
 			// failed handshake returns an error
-			for _, ret := range an.Returns(startTLS) {
+			for _, ret := range an.Returns(body) {
 				if hasFact(ret.Block(), true, func(v ssa.Value) bool {
 					x, trueMeansNil, ok := an.NilCheck(v)
 					return ok && !trueMeansNil && an.Strip(x) == an.Strip(succ)
@@ -944,13 +985,14 @@ func checkC13(c *Ctx) {
 	// ---- C13-pair
 	ls := an.LockSets(initConn, nil)
 	var stored = map[string]*ssa.Store{}
+	connMu := "c." + fld("conn", "mu")
 	for _, fld := range []string{"netConn", "reader", "writer"} {
 		for _, fs := range fieldStores(shipped, G, "conn", fld) {
 			switch {
 			case fs.Fn == initConn:
 				stored[fld] = fs.Store
 				held := ls[fs.Store]
-				R.Check(held.Holds("c.mu", false), "C13-pair", "(*conn).initConn: store conn."+fld+" under c.mu", c.pos(fs.Store), "must-held "+held.String(), "conn."+fld+" is swapped without holding c.mu")
+				R.Check(held.Holds(connMu, false), "C13-pair", "(*conn).initConn: store conn."+fld+" under c.mu", c.pos(fs.Store), "must-held "+held.String(), "conn."+fld+" is swapped without holding c.mu")
 			case fs.Fn == newConnFn && fld == "netConn":
 				R.Check(an.Strip(fs.Store.Val) == ssa.Value(newConnFn.Params[2]), "C13-pair", "newConn: store conn.netConn", c.pos(fs.Store), "constructor stores its parameter", "newConn stores something else than its netConn parameter")
 			default:
@@ -1095,6 +1137,13 @@ func checkC13(c *Ctx) {
 		}
 		R.Floor("C13-answered", 2)
 	}
+	// ---- C13-dispatched: "requests inside the tunnel are decoded, dispatched and answered exactly as on a plain
+	// connection": every request the read loop reads is dispatched exactly once, whatever happened on the connection
+	// before (rule C03-dispatch; a request dropped or answered by gldap itself on some path - e.g. when bookkeeping left
+	// behind by the StartTLS request has used up a limit - is not served as on a plain connection)
+	if c.importRules(checkC03, func(o report.Obligation) bool { return o.Rule == "C03-dispatch" }, "C13-dispatched", " - requests on (upgraded) connections are not all handed to their handler") > 0 {
+		R.Floor("C13-dispatched", 2)
+	}
 	// ---- C13-no-bypass
 	c.checkSocketDiscipline("C13-no-bypass")
 	for _, f := range shipped {
@@ -1119,6 +1168,9 @@ func lockOwnerType(f *ssa.Function, key string) string {
 				if nt := an.StructOf(fa.X.Type()); nt != nil {
 					return nt.Obj().Name()
 				}
+			}
+			if _, ok := mu.(*ssa.Global); ok {
+				return "package" // a package-level mutex is shared by every connection of every server
 			}
 		}
 	}
@@ -1180,6 +1232,28 @@ func (c *Ctx) checkDeadlineDiscipline(rule string, m *serverModel) {
 				key = fname(f) + ": " + s.ci.Common().Method.Name()
 			}
 			n++
+			// a helper that only sets deadlines (`setDeadlines(c, read, write)`): what matters is where it is called from
+			if f != m.serve && f != m.stop && f != m.connFn && !s.zero {
+				var sites []ssa.CallInstruction
+				for _, g := range shipped {
+					for _, cs := range an.Calls(g) {
+						if an.StaticCallee(cs.Common()) == f && isCall(cs) {
+							sites = append(sites, cs)
+						}
+					}
+				}
+				allOK := len(sites) > 0
+				for _, cs := range sites {
+					g := cs.Parent()
+					if !(g == m.stop || c.dominatedByShutdownRecv(cs) || c.isConnSetup(cs, m)) {
+						allOK = false
+					}
+				}
+				if allOK {
+					R.OK(rule, key+" (in a helper called on the shutdown path / at connection setup)", c.pos(s.ci), sprintf("all %d calls of %s are made once the server is stopping or before the connection's first read", len(sites), fname(f)))
+					continue
+				}
+			}
 			switch {
 			case s.zero:
 				R.Trivial(rule, key+" (clear)", c.pos(s.ci), "zero time: disarms the deadline")
